@@ -353,7 +353,7 @@ class NodeRun:
     """A real DownloadNode (segment queue, fetch_failed, process_blocks, _cancel_request, got_shares …)
     with fake shares, a fake finder and stubbed decode / ciphertext-hash check."""
 
-    def __init__(self, k, numsegs, badsegs):
+    def __init__(self, k, numsegs, badsegs, filesize=None, segsize=None):
         from twisted.internet import defer
         from allmydata import uri
         from allmydata.immutable.downloader import node as nm, fetcher as fm, common as dc
@@ -382,17 +382,19 @@ class NodeRun:
         self.cm.__enter__()
         self._saved_sf = nm.SegmentFetcher
         nm.SegmentFetcher = GenFetcher
-        vcap = uri.CHKFileVerifierURI(b"s" * 16, b"u" * 32, k, 10, max(1, numsegs) * k * 10)
+        vcap = uri.CHKFileVerifierURI(b"s" * 16, b"u" * 32, k, 10, filesize if filesize else max(1, numsegs) * k * 10)
         self.node = node = nm.DownloadNode(vcap, None, None, None, None, DownloadStatus(b"s" * 16, vcap.size))
         node._sharefinder = FakeFinder(self)
 
         def decode(segnum, blocks):
+            if filesize:
+                return defer.succeed((b"x" * max(0, min(segsize, filesize - segnum * segsize)), 0.0))
             return defer.succeed((b"x" * 10, 0.0))
 
         def check(segment_and_decodetime, segnum):
             if segnum in badsegs:
                 raise dc.BadCiphertextHashError("stub")
-            return (segnum * 10, segment_and_decodetime[0], 0.0)
+            return (segnum * (segsize if filesize else 10), segment_and_decodetime[0], 0.0)
         node._decode_blocks = decode
         node._check_ciphertext_hash = check
         orig_ff, orig_pb = node.fetch_failed, node.process_blocks
@@ -1600,3 +1602,278 @@ def gen_hashdamage_scenario(rng):
         off = rng.randrange(0, size)
         sc["reads"].append([[off, rng.randrange(1, size - off + 1)]])
     return sc
+
+
+# ----------------------------------------------------------------------------- composed system: real reads on a real node
+
+class SysRun(NodeRun):
+    """Real `DownloadNode.read()` calls (real Segmentation objects) on a real DownloadNode with fake shares; the
+    `_deliver` of every retired request and every queued turn is an explicit script event (tokens of the `sys` line)."""
+
+    def __init__(self, k, numsegs, badsegs, filesize, segsize, guess):
+        NodeRun.__init__(self, k, numsegs, badsegs, filesize=filesize, segsize=segsize)
+        from allmydata.immutable.downloader import segmentation as sgm
+        self.sgm = sgm
+        self._saved_sg = sgm.eventually
+        sgm.eventually = lambda f, *a, **kw: self.queue.append((f, a, kw))
+        self.segsize = segsize
+        self.node.guessed_segment_size = guess
+        self.next_req = 0
+        self.d2req = {}
+        self.keep = []
+        self.read_req = {}
+        self.segs = {}
+        self.results = {}
+        self.delivered = set()
+        self.cancelled_reqs = set()
+        self.retired_log = []
+        self.seen_delivers = []
+        self.cur_read = None
+        self.rids = []
+        run = self
+        orig_gs = self.node.get_segment
+
+        def gs(segnum, logparent=None):
+            rid = run.cur_read
+            run.cur = len(run.fetchers)
+            q = run.next_req
+            run.next_req += 1
+            run.calls.append("r%d:get=%d" % (rid, segnum))
+            d, c = orig_gs(segnum, logparent)
+            run.d2req[id(d)] = q
+            run.keep.append(d)
+            run.reqs[q] = c
+            run.read_req[rid] = q
+
+            class _C:
+                def cancel(self_inner):
+                    run.calls.append("r%d:cancel" % rid)
+                    run.cancelled_reqs.add(q)
+                    c.cancel()
+            return d, _C()
+        self.node.get_segment = gs
+
+    def close(self):
+        self.sgm.eventually = self._saved_sg
+        NodeRun.close(self)
+
+    def _drain_delivers(self):
+        # deliveries are explicit events here: only register the newly queued ones (in retirement order)
+        for item in self.queue:
+            if getattr(item[0], "__name__", "") == "_deliver" and not any(item is x for x in self.seen_delivers):
+                self.seen_delivers.append(item)
+                d, c, result = item[1]
+                q = self.d2req.get(id(d), -1)
+                from twisted.python.failure import Failure
+                if isinstance(result, Failure):
+                    name = result.value.__class__.__name__
+                    self.retired_log.append("%d=%s" % (q, ERRNAME.get(name, name)))
+                else:
+                    self.retired_log.append("%d=ok" % q)
+
+    def pending_delivers(self):
+        return [self.d2req.get(id(it[1][0]), -1) for it in self.queue if getattr(it[0], "__name__", "") == "_deliver"]
+
+    def apply(self, tok):
+        parts = tok.split(":")
+        node = self.node
+        if parts[0] in ("a", "n", "u", "s", "l"):
+            NodeRun.apply(self, tok)
+            if parts[0] == "u":
+                node.segment_size = self.segsize
+        else:
+            del self.calls[:]
+            try:
+                if parts[0] == "R":
+                    rid, off, size = int(parts[1]), int(parts[2]), int(parts[3])
+                    self.cur_read = rid
+                    self.rids.append(rid)
+                    run = self
+
+                    class _Consumer:
+                        def registerProducer(self_inner, p, streaming):
+                            run.segs[rid] = p
+
+                        def unregisterProducer(self_inner):
+                            pass
+
+                        def write(self_inner, data):
+                            run.calls.append("r%d:write=%d+%d" % (rid, run.segs[rid]._offset - len(data), len(data)))
+                    d = node.read(_Consumer(), off, size)
+
+                    def _ok(res):
+                        run.results[rid] = "done"
+                        run.calls.append("r%d:done" % rid)
+
+                    def _err(f):
+                        nm = SEGERR.get(f.value.__class__.__name__, "other")
+                        run.results[rid] = "err." + nm
+                        run.calls.append("r%d:errback=%s" % (rid, nm))
+                    d.addCallbacks(_ok, _err)
+                elif parts[0] == "d":
+                    q = int(parts[1])
+                    for i, it in enumerate(self.queue):
+                        if getattr(it[0], "__name__", "") == "_deliver" and self.d2req.get(id(it[1][0])) == q:
+                            del self.queue[i]
+                            self.delivered.add(q)
+                            owner = [r for r, qq in self.read_req.items() if qq == q]
+                            self.cur_read = owner[0] if owner else None
+                            it[0](*it[1], **it[2])
+                            break
+                elif parts[0] in ("X", "P", "U", "T"):
+                    rid = int(parts[1])
+                    self.cur_read = rid
+                    seg = self.segs[rid]
+                    if parts[0] == "X":
+                        seg.stopProducing()
+                    elif parts[0] == "P":
+                        seg.pauseProducing()
+                    elif parts[0] == "U":
+                        seg.resumeProducing()
+                    else:
+                        for i, it in enumerate(self.queue):
+                            if getattr(it[0], "__self__", None) is seg:
+                                del self.queue[i]
+                                it[0](*it[1], **it[2])
+                                break
+                else:
+                    raise ValueError(tok)
+            except ValueError:
+                raise
+            except Exception as e:
+                self.calls.append("exc=%s" % type(e).__name__)
+                self.unhandled.append("%s in %s" % (type(e).__name__, tok))
+            self._drain_delivers()
+        act = node._active_segment
+        reqs = ",".join("%d.%d" % (t[0], self._reqid(t[2])) for t in node._segment_requests) or "-"
+        a_s = "-" if act is None else "%d.%d.%d" % (act.gen, act.segnum, 1 if act._running else 0)
+        rds = []
+        for rid in self.rids:
+            seg = self.segs[rid]
+            turns = sum(1 for it in self.queue if getattr(it[0], "__self__", None) is seg)
+            q = self.read_req.get(rid)
+            pend = q is not None and q not in self.delivered and q not in self.cancelled_reqs
+            rds.append(":".join([str(rid), str(seg._offset), str(seg._size), "1" if seg._alive else "0",
+                                 "1" if seg._hungry else "0", "-" if seg._active_segnum is None else str(seg._active_segnum),
+                                 str(turns), self.results.get(rid, "-"), str(q) if pend else "-"]))
+        return "|".join([",".join(self.calls) or "-", reqs, a_s, ",".join(self.retired_log) or "-", ",".join(rds) or "-"])
+
+
+def gen_sys_script(rng, max_events=220):
+    """seeded environment of the composed system: 1-3 reads (also concurrent, overlapping) on one node, wrong or
+    right segment-size guess, share announcements and answers, decode failures, deliveries in any order, pauses /
+    resumes / stops."""
+    k = rng.choice([1, 1, 2])
+    segsize = rng.choice([8, 16, 40])
+    numsegs = rng.choice([1, 2, 3, 4])
+    filesize = segsize * numsegs - rng.choice([0, 0, 1, 3])
+    guess = rng.choice([segsize, segsize, 5, 16, 1000])
+    badsegs = sorted(x for x in range(numsegs) if rng.random() < 0.15)
+    shares = []
+    keys = set()
+    for i in range(rng.choice([0, 1, 2, 3, 4, 6])):
+        shnum, server, rtt = rng.randrange(3), rng.randrange(3), rng.randrange(50)
+        if (shnum, rtt) in keys or (shnum, server) in [(x[1], x[2]) for x in shares]:
+            continue
+        keys.add((shnum, rtt))
+        shares.append((len(shares), shnum, server, rtt))
+    pgood = rng.choice([0.5, 0.9, 1.0])
+    R = SysRun(k, numsegs, badsegs, filesize, segsize, guess)
+    toks, digs = [], []
+
+    def do(tok):
+        toks.append(tok)
+        digs.append(R.apply(tok))
+    try:
+        unannounced = list(shares)
+        rng.shuffle(unannounced)
+        nreads = rng.choice([1, 2, 2, 3])
+        started = 0
+        told_nomore = set()
+        ueb = False
+        overdue = set()
+        while len(toks) < max_events:
+            act = R.node._active_segment
+            acts = []
+            if started < nreads:
+                acts += ["read"] * 2
+            pend = R.pending_delivers()
+            if pend:
+                acts += ["deliver"] * 4
+            loops = [it for it in R.queue if getattr(it[0], "__name__", "") == "loop"]
+            if loops:
+                acts += ["loop"] * 4
+            turns = [rid for rid in R.rids if any(getattr(it[0], "__self__", None) is R.segs[rid] for it in R.queue)]
+            if turns:
+                acts += ["turn"] * 3
+            live = [rid for rid in R.rids if rid not in R.results]
+            paused = [rid for rid in live if not R.segs[rid]._hungry]
+            if paused:
+                acts += ["resume"] * 3
+            elif live and rng.random() < 0.1:
+                acts += ["pause"]
+            if live and rng.random() < 0.03:
+                acts += ["stop"]
+            outst = []
+            if act is not None and act._running:
+                outst = [sh.sid for sh in set(x for ss in act._shares_from_server.values() for x in ss)]
+                if unannounced:
+                    acts += ["announce"] * 2
+                elif act.gen not in told_nomore:
+                    acts += ["nomore"] * 2
+                if outst:
+                    acts += ["term"] * 3
+            if not acts:
+                break
+            a = rng.choice(acts)
+            if a == "read":
+                off = rng.randrange(0, filesize)
+                do("R:%d:%d:%d" % (started, off, rng.randrange(1, filesize - off + 1)))
+                started += 1
+            elif a == "deliver":
+                do("d:%d" % rng.choice(pend))
+            elif a == "loop":
+                do("l:%d" % loops[0][0].__self__.gen)
+            elif a == "turn":
+                do("T:%d" % rng.choice(turns))
+            elif a == "resume":
+                do("U:%d" % rng.choice(paused))
+            elif a == "pause":
+                do("P:%d" % rng.choice([r for r in live if R.segs[r]._hungry]))
+            elif a == "stop":
+                do("X:%d" % rng.choice(live))
+            elif a == "announce":
+                n = rng.randrange(1, min(3, len(unannounced)) + 1)
+                batch, unannounced = unannounced[:n], unannounced[n:]
+                do("a:" + ",".join(share_tok(x) for x in batch))
+            elif a == "nomore":
+                told_nomore.add(act.gen)
+                do("n")
+            else:
+                sid = rng.choice(outst)
+                st = "C" if rng.random() < pgood else rng.choice(["X", "D"])
+                if st == "C" and not ueb:
+                    ueb = True
+                    do("u")          # a share can only complete a block after the UEB (segment size) is known
+                do("s:%d:%d:%s" % (act.gen, sid, st))
+        act = R.node._active_segment
+        quiescent = not R.queue and (act is None or not act._running or
+                                     (act.gen in told_nomore and not unannounced and
+                                      not any(act._shares_from_server.values())))
+        info = {"quiescent": quiescent, "unhandled": list(R.unhandled),
+                "reads": {rid: {"result": R.results.get(rid), "hungry": bool(R.segs[rid]._hungry)} for rid in R.rids},
+                "written": {rid: sum(int(c.split("+")[1]) for d in digs for c in d.split("|")[0].split(",")
+                                     if c.startswith("r%d:write=" % rid)) for rid in R.rids},
+                "sizes": {rid: int(t.split(":")[3]) for t in toks if t.startswith("R:") for rid in [int(t.split(":")[1])]}}
+    finally:
+        R.close()
+    return (k, numsegs, badsegs, filesize, segsize, guess), toks, digs, info
+
+
+def replay_sys_script(params, toks):
+    R = SysRun(*params)
+    try:
+        digs = [R.apply(t) for t in toks]
+        return digs, {"results": dict(R.results), "unhandled": list(R.unhandled), "queued": len(R.queue)}
+    finally:
+        R.close()
